@@ -63,18 +63,26 @@ def bare_units_ok(a, b, n, m, us):
 
 
 def wrong_dims_raise(a, n, s, t, q, us, which):
-    bad = UnitValue(a, Units(SYS[us], UnitsDimensions(s, t, q)))
-    if which == "kf":
-        return raises(lambda: Reaction([{"A": n}, {"B": 1}], kf=bad, kr=0))
-    return raises(lambda: Reaction([{"B": 1}, {"A": n}], kf=0, kr=bad))
+    # the wrong quantity written in a foreign units system and in the reaction's own (default) one, where nothing needs converting
+    for u in (us, "A"):
+        bad = UnitValue(a, Units(SYS[u], UnitsDimensions(s, t, q)))
+        if which == "kf":
+            if not raises(lambda: Reaction([{"A": n}, {"B": 1}], kf=bad, kr=0)):
+                return False
+        elif not raises(lambda: Reaction([{"B": 1}, {"A": n}], kf=0, kr=bad)):
+            return False
+    return True
 
 
 def wrong_dims_raise_env(n, s, t, q, us, form):
     """the same for per-environment dictionaries: a quantity object / text of the wrong dimension under an environment key, a shared 'a,b' key or 'default'"""
-    bad = UnitValue(1.5, Units(SYS[us], UnitsDimensions(s, t, q)))
-    good = UnitValue(2.5, Units(SYS[us], UnitsDimensions(3 * n - 3, -1, 1 - n)))
-    val = [{"e0": bad}, {"e0": good, "default": bad}, {"e0,e1": bad}, {"e0": str(bad)}, {"e0": good, "e1": bad}][form]
-    return raises(lambda: Reaction([{"A": n}, {"B": 1}], kf=val, kr=0)) and raises(lambda: Reaction([{"B": 1}, {"A": n}], kf=0, kr=val))
+    for u in (us, "A"):
+        bad = UnitValue(1.5, Units(SYS[u], UnitsDimensions(s, t, q)))
+        good = UnitValue(2.5, Units(SYS[u], UnitsDimensions(3 * n - 3, -1, 1 - n)))
+        val = [{"e0": bad}, {"e0": good, "default": bad}, {"e0,e1": bad}, {"e0": str(bad)}, {"e0": good, "e1": bad}][form]
+        if not (raises(lambda: Reaction([{"A": n}, {"B": 1}], kf=val, kr=0)) and raises(lambda: Reaction([{"B": 1}, {"A": n}], kf=0, kr=val))):
+            return False
+    return True
 
 
 def right_dims_kept(a, n, us1, us2):
